@@ -1231,14 +1231,21 @@ class TaskScenario(ScenarioData):
         # Calculate when each path would complete the task
 
         primary_end = self._estimateCompletionTime(primary_resources, effort)
-        alternative_end = self._estimateCompletionTime(alternative_resources, effort)
+        # Alternatives are candidates of which ONE replaces the primary - not a team: find the
+        # one that finishes first (ties go to the one listed first)
+        best_alternative = None
+        alternative_end = None
+        for candidate in alternative_resources:
+            candidate_end = self._estimateCompletionTime([candidate], effort)
+            if candidate_end is not None and (alternative_end is None or candidate_end < alternative_end):
+                best_alternative, alternative_end = candidate, candidate_end
 
         # Choose the path that finishes earlier
-        if alternative_end is not None and (primary_end is None or alternative_end < primary_end):
+        if best_alternative is not None and (primary_end is None or alternative_end < primary_end):
             # Store which resource was selected for reporting
             if not hasattr(self, "_selectedAlternative"):
                 self._selectedAlternative = True
-            return alternative_resources
+            return [best_alternative]
         else:
             if not hasattr(self, "_selectedAlternative"):
                 self._selectedAlternative = False
